@@ -46,7 +46,10 @@ import (
 
 // runScenario runs ops in worker processes on a fresh directory; a "restart" op ends a
 // worker (after the data-related part of a server shutdown) and starts a new one on the same directory.
-func runScenario(dir string, ops []Op) ([]Obs, error) {
+func runScenario(dir string, ops []Op, timeoutSec int) ([]Obs, error) {
+	if timeoutSec <= 0 {
+		timeoutSec = 180
+	}
 	_ = os.RemoveAll(dir)
 	if err := os.MkdirAll(dir, 0o755); err != nil {
 		return nil, err
@@ -69,7 +72,7 @@ func runScenario(dir string, ops []Op) ([]Obs, error) {
 			}
 			b, _ := json.Marshal(phaseOps)
 			_ = os.WriteFile(sp, b, 0o644)
-			ctx, cancel := context.WithTimeout(context.Background(), 180*time.Second)
+			ctx, cancel := context.WithTimeout(context.Background(), time.Duration(timeoutSec)*time.Second)
 			cmd := exec.CommandContext(ctx, os.Args[0], "worker", data, sp, op)
 			out, err := cmd.CombinedOutput()
 			cancel()
@@ -801,6 +804,14 @@ func genKnown(r *vhlib.Rng) []*Scenario {
 		[][]string{{`{}`}, {`{"a":"x"}`}}, []Op{q(10000)})
 	sc.ToCoq = false // the abandoned flush (file protocol) is outside the column model
 	add(sc)
+	// latent: only with a cardinality limit below 4 (test knob SetCardinalityLimit; the default is 501).
+	// block 1: column m2 has a bloom, holds only a null, is stored raw -> bloom.NewWithEstimates(0);
+	// block 2: m2 holds a string and a number -> convertColumnToStrings adds to that filter: never returns
+	sc = handScenario("degenerate_bloom_hang", "known:degenerate_bloom_hangs_flush_with_tiny_cardinality_limit", 1,
+		[][]string{{`{"m2":"n/a","x":1}`}, {`{"m2":null,"x":2}`}, {`{"m2":"n/a","x":3}`, `{"m2":1.5,"x":4}`}}, []Op{q(10000)})
+	sc.ToCoq = false
+	sc.Timeout = 12
+	add(sc)
 	// constant record length recorded for the segment, then the block is rewritten as text
 	sc = handScenario("shortcut_after_text_conversion", "known:constant_length_shortcut_after_text_conversion", 0,
 		[][]string{{`{"a":5}`, `{"a":"abcdef"}`, `{"a":1.5}`, `{"a":"ghijkl"}`}},
@@ -1001,7 +1012,7 @@ func main() {
 		}
 		dir, _ := os.MkdirTemp("", "C01_probe")
 		defer os.RemoveAll(dir)
-		obs, err := runScenario(dir, ops)
+		obs, err := runScenario(dir, ops, 0)
 		if err != nil {
 			fmt.Println("ERR", err)
 			os.Exit(1)
@@ -1047,7 +1058,7 @@ func main() {
 			defer wg.Done()
 			defer func() { <-sem }()
 			dir := filepath.Join(base, fmt.Sprintf("s%d", i))
-			results[i], errs[i] = runScenario(dir, scs[i].Ops)
+			results[i], errs[i] = runScenario(dir, scs[i].Ops, scs[i].Timeout)
 			_ = os.RemoveAll(dir)
 		}(i)
 	}
